@@ -30,6 +30,15 @@ __CPROVER_ensures(in_k < in_len ==> g_out[in_k] == in_sym[in_k])
 __CPROVER_ensures(g_start == g_written + 1)
 __CPROVER_assigns(g_out, g_outlen, g_start, g_written, g_threw);
 
+/* nested symbol (record field): written with backslash escapes inside the RFC 4180 quoted record, read back unchanged */
+unsigned long g_consumed;
+_Bool h_csv_nested(const char *sym, unsigned long len, char *out, unsigned long *outlen, unsigned long *consumed)
+__CPROVER_requires(sym == in_sym && len == in_len && len <= VX_MAXLEN && out == g_out && outlen == &g_outlen && consumed == &g_consumed && g_threw == 0 && in_k < VX_MAXLEN)
+__CPROVER_requires(in_k >= in_len || (in_sym[in_k] != '\n' && in_sym[in_k] != '\r' && in_sym[in_k] != 0))
+__CPROVER_ensures(g_threw == 0 && g_outlen == in_len && g_consumed == 1)
+__CPROVER_ensures(in_k < in_len ==> g_out[in_k] == in_sym[in_k])
+__CPROVER_assigns(g_out, g_outlen, g_consumed, g_start, g_written, g_threw);
+
 /* C18: nextElement on ANY line (bounded length): it either reports an error or returns a field of the line, and never reads
    outside the line (the scaffold string asserts index <= size() on every access) */
 char in_line[VX_CAP]; unsigned long in_linelen, in_start; _Bool in_rfc;
@@ -55,6 +64,14 @@ void harness_roundtrip(void) {
     CANARY;
 }
 
+void harness_nested(void) {
+    for (int i = 0; i < VX_MAXLEN; i++) in_sym[i] = nondet_char();
+    in_len = nondet_ulong(); in_k = nondet_ulong(); g_threw = 0;
+    __CPROVER_assume(in_len <= VX_MAXLEN);
+    for (int i = 0; i < VX_MAXLEN; i++) __CPROVER_assume(i >= (int)in_len || (in_sym[i] != '\n' && in_sym[i] != '\r' && in_sym[i] != 0));
+    h_csv_nested(in_sym, in_len, g_out, &g_outlen, &g_consumed);
+    CANARY;
+}
 _Bool nondet_bool(void);
 void harness_nextElement(void) {
     for (int i = 0; i < VX_CAP; i++) in_line[i] = nondet_char();
